@@ -22,6 +22,8 @@
 import Varlink.Idl.Layout
 import Varlink.Extracted.Idl
 import VarlinkProofs.Lemmas.IdlRender
+import Varlink.Extracted.Code
+import Varlink.ExpectedCode
 namespace Varlink.C05
 open Varlink Varlink.Idl
 
@@ -205,5 +207,11 @@ example : ∃ t, New sample.render = .ok t ∧ t.doc = str "about the interface\
   refine ⟨sample.tree, parse_render_partial sample (by decide +kernel), ?_, ?_⟩ <;> decide +kernel
 /-- the same by running the model on the rendered text in the kernel (no use of the theorem) -/
 example : (match New sample.render with | .ok t => t.members.length | _ => 0) = 4 := by decide +kernel
+
+/-- **Tie to the source**: the declarations of /repo that this property's model transliterates
+    (`Extracted.codeNames_C05`) have, in the current working tree, exactly the fingerprints of the code the
+    model was validated against. Any change to them breaks this obligation; the check then searches the
+    correspondence streams for an input on which the changed code violates the property. -/
+theorem modelled_code_unchanged : Varlink.Extracted.code_C05 = Varlink.ExpectedCode.code_C05 := by decide
 
 end Varlink.C05
